@@ -1,4 +1,4 @@
-(* C02 over DEPENDENT layouts (DepRT.dfrag with every Struct member named): when a value builds to some bytes, the value those
+(* C02 over DEPENDENT layouts (DepRT.dfrag with every Struct member named, or an anonymous constant / padding): when a value builds to some bytes, the value those
    bytes parse to builds to the SAME bytes again.  The sizes and choices read from earlier fields are the same three times:
    in the first build (the built field), in the parse (the parsed integer) and in the second build (the parsed integer built
    again), because an integer field parses to the integer that was built. *)
@@ -83,7 +83,7 @@ Proof.
   intros Hl. apply rebuild_fragment. destruct c; try discriminate Hl; cbn [int_leaf sfrag] in *; auto.
 Qed.
 
-Lemma dloop_RB : forall ms Gn, dgo Gn ms = true -> NoDup (names ms) -> (forall k, In k Gn -> ~ In k (names ms)) -> forallb named ms = true ->
+Lemma dloop_RB : forall ms Gn, dgo Gn ms = true -> NoDup (names ms) -> (forall k, In k Gn -> ~ In k (names ms)) -> forallb memberok ms = true ->
   (forall m, In m ms -> forall G', memok G' m = true -> forall Gv, map fst Gv = G' -> RBG Gv m) ->
   forall G kv cxb pb o cxb' o', map fst G = Gn -> app_mode o -> knows cxb G ->
   struct_bloop build kv ms cxb pb o = Ok (cxb', o') ->
@@ -139,7 +139,27 @@ Proof.
       apply andb_prop in Hg as [Hm Hg].
       destruct (proj2 (proj2 (proj2 (dep_roundtrip m))) Gn Hm) as [Hst HR].
       pose proof (HR G HG) as Hc. pose proof (HB m (or_introl eq_refl) Gn Hm G HG) as Hcb.
-      destruct m as [| | | | | | | | | | | | | | | | | | | | | | | | | | | | | | | | | | | | |n c0| | | | | | | | | | | | | | | | | | | | | ]; try discriminate Hn1.
+      unfold memberok in Hn1. destruct (named m) eqn:Enamed.
+      2:{ (* an anonymous member that builds from nothing *)
+        cbn [orb] in Hn1. pose proof (anon_name m Hn1) as En. rewrite En in Hb.
+        destruct (buildnone m) eqn:Ebn; [|discriminate]. cbn [bind] in Hb.
+        destruct (build m VNone cxb pb o) as [[r o1]|e q] eqn:Ec.
+        2:{ destruct e; try discriminate. rewrite Hst in Hb. discriminate. }
+        assert (Hnd' : NoDup (names t)) by (rewrite names_cons, En in Hnd; exact Hnd).
+        assert (Hfresh' : forall k, In k Gn -> ~ In k (names t)).
+        { intros k Hin Hin'. apply (Hfresh k Hin). rewrite names_cons, En. exact Hin'. }
+        destruct (Hc VNone _ pb o r o1 Ho Hk Ec) as (out1 & -> & Hp1).
+        destruct (IH Gn Hg Hnd' Hfresh' Hn2 HB' G kv _ pb _ cxb' o' HG (app_mode_oapp _ _) Hk Hb) as (out2 & -> & Hp2).
+        exists (out1 ++ out2). split; [apply oapp_app|].
+        intros cxp pp acc pre rest base sk acc' cxp' s' Hkp Hp kv2 Hkv cxb2 pb2 o2 Ho2 Hk2. rewrite <- app_assoc in Hp. cbn [struct_loop] in Hp.
+        destruct (Hp1 cxp pp pre (out2 ++ rest) base sk Hkp) as (r' & E1 & _). rewrite E1, En in Hp.
+        cbn [struct_bloop]. rewrite En, Ebn. cbn [bind].
+        destruct (anon_det m Hn1 VNone cxb pb o r out1 cxb2 pb2 o2 Ho Ho2 Ec) as (r2 & E2). rewrite E2.
+        assert (Hkv' : forall m', In m' (names t) -> lookup m' kv2 = lookup m' acc').
+        { intros m' Hm'. apply Hkv. rewrite names_cons, En. exact Hm'. }
+        destruct (Hp2 _ pp _ (pre ++ out1) rest base sk acc' cxp' s' Hkp Hp kv2 Hkv' cxb2 pb2 (oapp o2 out1) (app_mode_oapp _ _) Hk2) as (cxf & E3).
+        rewrite E3. rewrite oapp_app. eexists. reflexivity. }
+      destruct m as [| | | | | | | | | | | | | | | | | | | | | | | | | | | | | | | | | | | | |n c0| | | | | | | | | | | | | | | | | | | | | ]; try discriminate Enamed.
       cbn [name_of] in Hb.
       match type of Hb with context [bind ?X _] => destruct X as [subobj|] eqn:Es end; [|discriminate]. cbn [bind] in Hb.
       destruct (build (CRenamed n c0) subobj (ctx_set cxb n subobj) pb o) as [[r o1]|e q] eqn:Ec.
@@ -171,7 +191,7 @@ Proof.
       rewrite E3. rewrite oapp_app. eexists. reflexivity.
 Qed.
 
-Theorem RB_dstruct cs : dgo [] cs = true -> NoDup (names cs) -> forallb named cs = true ->
+Theorem RB_dstruct cs : dgo [] cs = true -> NoDup (names cs) -> forallb memberok cs = true ->
   (forall m, In m cs -> forall G', memok G' m = true -> forall Gv, map fst Gv = G' -> RBG Gv m) -> RB (CStruct cs).
 Proof.
   intros Hg Hnd Hnm HB v cxb pb o r out Ho Hb cxp pp pre rest base sk r' s' Hp cxb2 pb2 o2 Ho2. cbn [build] in Hb.
@@ -184,10 +204,10 @@ Proof.
   eexists. cbn [build bind]. rewrite E2. reflexivity.
 Qed.
 
-(* ---- the fragment: dfrag, every Struct member named ---- *)
+(* ---- the fragment: dfrag, every Struct member named or an anonymous constant / padding ---- *)
 Fixpoint allnamed (c : con) : bool :=
   match c with
-  | CStruct cs => forallb named cs && forallb allnamed cs
+  | CStruct cs => forallb memberok cs && forallb allnamed cs
   | CSequence cs => forallb allnamed cs
   | CRenamed _ c' | CArray _ c' | CPadded _ c' _ | CAligned _ c' _ | CFixedSized _ c' | CPrefixed _ c' _ => allnamed c'
   | CSwitch _ cases d => forallb (fun vc => allnamed (snd vc)) cases && allnamed d
@@ -330,4 +350,18 @@ Proof. split; reflexivity. Qed.
 
 Lemma ex_tlv_stable :
   stable_run ex_tlv [x02; x02; x01; x02; x00; x03; xac; x82; x00] = Some (false, true).
+Proof. vm_compute. reflexivity. Qed.
+
+(* with an anonymous magic constant in front and anonymous padding behind *)
+Definition ex_magic_tlv : con :=
+  CStruct [CConst (VBytes [x54; x4c]) (CBytes (kint 2));
+           CRenamed [x74] (CFormat Big FB);
+           CRenamed [x6e] (CFormat Big FB);
+           CRenamed [x76] (CSwitch (this_ [x74]) [(VInt 1, CBytes (this_ [x6e])); (VInt 2, CArray (this_ [x6e]) (CFormat Big FH))] CPass);
+           CPadded (kint 1) CPass x00].
+
+Lemma ex_magic_tlv_in_fragment : dfrag false ex_magic_tlv = true /\ allnamed ex_magic_tlv = true.
+Proof. split; reflexivity. Qed.
+
+Lemma ex_magic_tlv_stable : stable_run ex_magic_tlv [x54; x4c; x01; x03; x61; x62; x63; xee] = Some (false, true).
 Proof. vm_compute. reflexivity. Qed.
